@@ -1,5 +1,7 @@
 package asn
 
+//gosx:file init=github.com/free5gc/chf/cdr/asn
+
 import vx "github.com/free5gc/chf/zzvx"
 
 // C05-U1: every int64 survives BerMarshal -> Unmarshal.
